@@ -131,6 +131,12 @@ func TestWorker(t *testing.T) {
 		return
 	}
 
+	if os.Getenv("VERIF_ONESEED") != "" {
+		seed, _ := strconv.ParseUint(os.Getenv("VERIF_ONESEED"), 10, 64)
+		out := RunOne(t, prop, seed, NewChooser(seed), tier, true)
+		fmt.Printf("TRACE %x viol=%v harness=%q\n", out.TraceHash, out.Viol, out.Harness)
+		return
+	}
 	batch := uint64(envInt("VERIF_SEED", 1))
 	worker := envInt("VERIF_WORKER", 0)
 	budget := time.Duration(envInt("VERIF_BUDGET_MS", 5000)) * time.Millisecond
@@ -156,7 +162,16 @@ func TestWorker(t *testing.T) {
 	for i := 0; i < maxRuns && time.Since(start) < budget; i++ {
 		seed := mix(batch, uint64(worker), uint64(i))
 		ch := NewChooser(seed)
-		out := RunOne(t, prop, seed, ch, tier, verbose)
+		dbg := os.Getenv("VERIF_DEBUG_RUN") == strconv.Itoa(i)
+		if dbg {
+			fmt.Println("=====ORIGINAL")
+		}
+		out := RunOne(t, prop, seed, ch, tier, verbose || dbg)
+		if dbg {
+			fmt.Println("=====REPLAY")
+			re := RunOne(t, prop, seed, NewReplayChooser(out.Decisions), tier, true)
+			fmt.Printf("=====HASHES %x %x\n", out.TraceHash, re.TraceHash)
+		}
 		res.Runs++
 		res.Decisions += len(out.Decisions)
 		if out.Harness != "" {
@@ -183,7 +198,18 @@ func TestWorker(t *testing.T) {
 			res.Rechecked++
 			if re.TraceHash != out.TraceHash || (re.Viol == nil) != (out.Viol == nil) {
 				res.Diverged++
-				res.Harness = fmt.Sprintf("nondeterminism: seed %d run %d trace %x vs %x", seed, i, out.TraceHash, re.TraceHash)
+				diff := ""
+				for k, v := range out.Streams {
+					if re.Streams[k] != v {
+						diff += " " + k
+					}
+				}
+				for k := range re.Streams {
+					if _, ok := out.Streams[k]; !ok {
+						diff += " +" + k
+					}
+				}
+				res.Harness = fmt.Sprintf("nondeterminism: seed %d run %d trace %x vs %x; differing streams:%s; decisions %d vs %d", seed, i, out.TraceHash, re.TraceHash, diff, len(out.Decisions), len(re.Decisions))
 				break
 			}
 		}
